@@ -1,9 +1,19 @@
 #!/bin/bash
-# Offline setup after a fresh restore: build the Lean library (models, lemmas, property
-# theorems) and all model drivers.  Harnesses are compiled by the checks themselves from
+# Offline setup after a fresh restore: build the Lean theorems and the model driver of every
+# claimed property (MANIFEST.json).  Harnesses are compiled by the checks themselves from
 # /repo's working tree.
 set -e
 cd "$(dirname "$0")/.."
 mkdir -p .build evidence replays
+targets=$(python3 - <<'PY'
+import json
+m=json.load(open('MANIFEST.json'))
+t=[]
+for c in m['checks']:
+    p=c['property_id']
+    t += ['Osmium.Props.'+p, 'model_'+p.lower()]
+print(' '.join(t))
+PY
+)
 cd lean
-lake build 2>&1 | tail -5
+lake build $targets 2>&1 | tail -5
